@@ -507,7 +507,7 @@ def handleHead (toks : List String) : String :=
   | none => err "format"
   | some ((mono, line, vects, lens, ua, shifts, cur, a), _) =>
     if lens.x ≤ 0 || lens.y ≤ 0 || lens.z ≤ 0 then err "format" else
-    match callHead Rat.ceil mono line vects lens ua shifts cur a with
+    match callHead (ceilOfFloor Rat.floor) mono line vects lens ua shifts cur a with
     | (c', .error e) => "err:" ++ e ++ " | " ++ showV c'
     | (c', .ok h) =>
       "ok " ++ showInts [h.sizes.a.lo, h.sizes.a.hi, h.sizes.b.lo, h.sizes.b.hi, h.sizes.c.lo, h.sizes.c.hi] ++ " | " ++
